@@ -5,6 +5,12 @@ import json, subprocess, os
 V = os.path.dirname(os.path.dirname(os.path.abspath(__file__)))
 
 claimed = {
+ "C02": dict(tech="schema-relative table checks (generated R4 Go types vs the name mapping), SCCP of the admission test, taint analysis of identifier text, type-switch agreement",
+    text="Decides structural necessary conditions of navigation exhaustively over the R4 schema as present in the generated Go types: every one of the ~5000 message-valued element fields is admitted by isEvaluable and resolves to its proto field under the modelled lookups (ByName(ToSnake) / _value retry / ByJSONName); the choice discriminator holds for all 186 choice wrappers and agrees between expr and patch; proto-only pseudo fields are refused on the four time primitives only; identifier text is unquoted before use; IsPrimitive/From cover every schema primitive.",
+    note="Not decided: equality of results with the JSON tree, document order, reference string synthesis, date/time rendering. The strcase functions are modelled by the library itself (pure functions).", ref="§3-C02"),
+ "C13": dict(tech="SCCP with the conversion call / input item type pinned; table name agreement",
+    text="For 8 targets x 11 input item forms: toT never errors for a single item and every non-empty result has dynamic type T; convertsToT is true iff toT is non-empty; multi-item input is an error; the table binds the names to the same-named implementations.",
+    note="Not decided: which texts convert, round trips through strings. Known findings (test-pinned): 'abc'.toInteger() errors; Patient.toString() = [false].", ref="§3-C13"),
  "C05": dict(tech="SCCP with comparison results pinned (operator orientation / negation tables), loop-verdict placement, type-switch sibling agreement against the R4 schema, reflective method-shape table",
     text="Decides the structural clauses of the comparison machinery for all paths: quantifier verdicts are returned outside their loops; `!=` is `=` negated with a shared empty path; the four inequalities are oriented correctly over normalised operands with precision/unit mismatch mapped to empty; IsPrimitive/From agree and cover every schema primitive; Equal/TryEqual method shapes match what the reflective dispatcher assumes; Integer/String/Boolean comparisons are evaluated exhaustively over a boundary pool.",
     note="Not decided: agreement of Date/DateTime/Time/Quantity/Decimal Less/TryEqual with a reference model on values; transitivity on values. Trusted: SCCP engine, operator semantics table.", ref="§3-C05"),
